@@ -104,13 +104,29 @@ def job_strftime(ctx, mode, rep, fmt, ranges=None):
         # so the comparison is made for 0 <= h < 24
         return C.m_valid_point(mode, i["p"], rep, False)
 
+    epoch_fmt = "%s" in fmt
+
     def body(i):
         p = i["p"]
-        return p.strftime(fmt), posix(fmt, civil(data, mode, p, rep, "%s" in fmt))
+        if epoch_fmt:
+            # the digits of a 12-digit number are compared numerically: the text strftime writes must be the
+            # library's own decimal rendering (prop) of a number equal to the oracle's Unix time
+            prop = p.seconds_since_unix_epoch
+            return p.strftime(fmt), fmt.replace("%s", "\0").split("\0"), prop
+        return p.strftime(fmt), posix(fmt, civil(data, mode, p, rep, False))
 
     def post(i, out):
         if out[0] != "ok":
             return [("supported directives render", False)]
+        if epoch_fmt:
+            got, lits, prop = out[1]
+            num = getattr(prop, "num", None)
+            if num is None:
+                return [("%s renders an integer", False)]
+            ep = R.daynum_cal(R.PyOps, mode, 1970, 1, 1) * 86400
+            want = SymStr.make(list(lits[0]) + list(SymStr.lift(prop)) + list(lits[1]))
+            return [("%s is the Unix time of the instant", L(num) == L(C.m_instant(mode, i["p"], rep)) - ep),
+                    ("written in place, as a plain decimal integer", z3_str_eq(got, want))]
         got, want = out[1]
         return [("strftime output is the POSIX rendering of the civil date-time", z3_str_eq(got, want))]
 
@@ -351,6 +367,11 @@ def jobs(tier):
                     if rep == "week" and not th and fmt not in ("%Y", "%F", "%j", "%Y-%jT%X%z"):
                         continue
                     J.append(("job_strftime", dict(mode=mode, rep=rep, fmt=fmt, ranges=rg)))
+        # %s output for every year (the subtraction from 1970 is closed-form); day windows keep the case splits small
+        for rg in ({"DOY": (1, 2)}, {"DOY": (59, 60)}, {"DOY": (365, 366)}):
+            for hh in ((0, 1), (22, 23)):
+                J.append(("job_strftime", dict(mode=mode, rep="ord", fmt="%s", ranges=dict(rg, h=hh, tzh=(-1, 1), tzm=(0, 0)))))
+        J.append(("job_strftime", dict(mode=mode, rep="cal", fmt="at %s", ranges={"M": (12, 12), "D": (31, 31), "h": (22, 23), "tzh": (-1, 1), "tzm": (0, 0)})))
         for fmt in FULL:
             for rep in (C.REPS if th else ["cal", "ord"]):
                 for rg in W[rep]:
@@ -378,7 +399,7 @@ INFO = {
                    "with p's offset for formats fixing date, time and zone, documented defaults otherwise; the other %-letter "
                    "directives raise StrftimeSyntaxError (concrete enumeration).",
     "bounds": {"quick": {"years": "0000..9999 (%s: 1969..1971, whole-hour offsets +-1, dates at the year ends / end of February)",
-                         "formats": "18 for strftime; 5 complete + 5 partial for the strptime round trip; week-date points: 4 formats, years 2000-2099, weeks 1, 26, 52, 53",
+                         "%s output": "years 0000..9999, ordinal days 1-2, 59-60, 365-366, first/last two hours of the day, whole-hour offsets +-1", "formats": "18 for strftime; 5 complete + 5 partial for the strptime round trip; week-date points: 4 formats, years 2000-2099, weeks 1, 26, 52, 53",
                          "mode": "gregorian"},
                "thorough": {"mode": "all 4", "week-date points": "every format"}},
     "outside": ["24:00 points (rendered as stored)", "fractional seconds", "format strings other than the listed ones",
